@@ -310,6 +310,25 @@ fn const_tree<'tcx>(tcx: TyCtxt<'tcx>, aid: mir::interpret::AllocId, off: u64, t
             Some(J::Obj(vec![("k", J::s("struct")), ("path", J::s(tcx.def_path_str(def.did()))), ("fields", J::Arr(out))]))
         }
         ty::Ref(_, inner, _) => {
+            if inner.is_str() {
+                // fat pointer: (data pointer with provenance, length)
+                if let mir::interpret::GlobalAlloc::Memory(a) = tcx.global_alloc(aid) {
+                    let p2 = a.inner().provenance().get_ptr(rustc_abi::Size::from_bytes(off))?;
+                    let b = bytes_of_alloc(tcx, aid, off, 16)?;
+                    let mut po: u64 = 0;
+                    let mut ln: u64 = 0;
+                    for i in 0..8 {
+                        po |= (b[i] as u64) << (8 * i);
+                        ln |= (b[8 + i] as u64) << (8 * i);
+                    }
+                    if ln > 4096 {
+                        return None;
+                    }
+                    let sb = bytes_of_alloc(tcx, p2.alloc_id(), po, ln as usize)?;
+                    return Some(J::Obj(vec![("k", J::s("str")), ("s", J::s(String::from_utf8_lossy(&sb).to_string()))]));
+                }
+                return None;
+            }
             if !inner.is_sized(tcx, env) {
                 return None;
             }
